@@ -281,6 +281,30 @@ func ruleLeaderForgetsOldProgress(c *eng.Ctx) {
 				}
 			}
 		}
+		if resetLoop != nil {
+			// ... for EVERY entry: no iteration of the loop skips the reset (the leader's own entry included — its refresh
+			// below only ever raises the offset, and whether it raised it decides if the watermark is re-derived)
+			isReset := func(x ssa.Instruction) bool {
+				switch y := x.(type) {
+				case *ssa.MapUpdate:
+					return eng.Load(isrF, nil)(y.Map)
+				case *ssa.Store:
+					fa, isFA := y.Addr.(*ssa.FieldAddr)
+					return isFA && fieldIs(fa, offF) && eng.IntConst(-1)(y.Val)
+				}
+				return false
+			}
+			eng.Instrs(fn, func(in ssa.Instruction) {
+				nx, isNext := in.(*ssa.Next)
+				if !isNext || nx.Iter != ssa.Value(resetLoop.(*ssa.Range)) {
+					return
+				}
+				q := &eng.PathQuery{Fn: fn, FromAfter: []ssa.Instruction{in}, Target: func(x ssa.Instruction) bool { return x == in }, CutInstr: isReset}
+				if q.Find() != nil {
+					ok = false
+				}
+			})
+		}
 		if resetLoop == nil {
 			ok = false
 		} else {
